@@ -197,5 +197,11 @@ def check(s):
         s.ob("C05.5", coni, isinstance(bufn, tuple) and bufn[0] == "record" and bufn[1].endswith("ReplayBuffer")
              and fb.get("size") == ("param", "size"), "the buffer is a ReplayBuffer of the requested size",
              s.loc("AbstractOffPolicyStepState", "initial"), key="initial-buffer", detail=show(bufn, maxlen=200))
-    for r_, n in (("C05.1", 20), ("C05.2", 4), ("C05.3", 4), ("C05.4", 10), ("C05.5", 7)):
+    # C05.5 what add() does with these arguments: the buffer stores each argument unchanged in the like-named field of one slot
+    # (a buffer that rewrites `done` or shifts a flag to another slot makes the stored transition differ from what happened)
+    from .C06 import check_add
+    check_add(s, "C05.5", "C05.5")
+    from .util import no_late_binding
+    no_late_binding(s, "C05.5", ("lerax.buffer", "lerax.algorithm.off_policy"))
+    for r_, n in (("C05.1", 20), ("C05.2", 4), ("C05.3", 4), ("C05.4", 10), ("C05.5", 7), ("C05.5", 40)):
         s.floor(r_, n)
